@@ -26,6 +26,7 @@ void (*p_kill_hook)(int pid, int sig);
 void (*p_exec_hook)(const char *file);
 void (*p_child_hook)(int pid);
 void (*p_delivery_hook)(int tid, int sig);
+void (*p_reap_hook)(int pid, int status);
 void (*p_delivery_done_hook)(int tid, int sig);
 int p_fork_fail;
 
@@ -315,6 +316,8 @@ pid_t wait4(pid_t pid, int *status, int options, struct rusage *ru)
 			c->has_report = 0;
 			if (status)
 				*status = c->report;
+			if (p_reap_hook)
+				p_reap_hook(c->pid, c->report);
 			if (ru)
 				memset(ru, 0, sizeof(*ru));
 			if (c->terminated) {
